@@ -341,11 +341,16 @@ DriftPerIndex(T, R, r) ==
   IN [num |-> b.v \div g, den |-> r.den \div g,
       k |-> IF b.v = 0 THEN 0 ELSE (b.q % dd) \div T.d, l |-> IF b.v = 0 THEN 0 ELSE b.q % T.d]
 
+(* The first drift is found on the TRANSPOSED array, whose 3x3 blocks are transposed too: the     *)
+(* component pair (k, l) found there is the pair (l, k) of the array being described, which is   *)
+(* how the full-layout display labels it (fixed in /repo f02c0e3; before that the compact display *)
+(* printed the transposed pair).                                                                   *)
+SwapKL(d) == [d EXCEPT !.k = d.l, !.l = d.k]
 (* as displayed by the code: through its transposition kernel *)
-DriftShown(T, c) == [first |-> DriftPerIndex(T, T.np, TransposeC(T, c)), second |-> DriftPerIndex(T, T.np, c)]
+DriftShown(T, c) == [first |-> SwapKL(DriftPerIndex(T, T.np, TransposeC(T, c))), second |-> DriftPerIndex(T, T.np, c)]
 (* what it should display: the same for the transposed array of the definition *)
 DriftDef(T, c) ==
-  [first |-> DriftPerIndex(T, T.np, CompactOf(T, FullTranspose(T, FullOf(T, c)))), second |-> DriftPerIndex(T, T.np, c)]
+  [first |-> SwapKL(DriftPerIndex(T, T.np, CompactOf(T, FullTranspose(T, FullOf(T, c))))), second |-> DriftPerIndex(T, T.np, c)]
 
 -----------------------------------------------------------------------------
 (* programs *)
